@@ -402,7 +402,47 @@ mod verif_driver_compile {
                 }
             }
         }
+        // the version written selects the kind of reference script; none written = Plutus V3
+        let native = [vec![0x82u8, 0x00, 0x58, 0x1c], vec![9u8; 28]].concat();
+        for (ver, script, want) in [(Some(0i128), native.clone(), "native"), (Some(1), vec![1, 2, 3], "v1"), (Some(2), vec![1, 2, 3], "v2"), (Some(3), vec![1, 2, 3], "v3"), (None, vec![1, 2, 3], "v3")] {
+            n += 1;
+            let mut kv = vec![("script", tir::Expression::Bytes(script.clone()))];
+            if let Some(v) = ver { kv.push(("version", num(v))); }
+            let got = match quiet(|| compile_adhoc_script(&adhoc("plutus_script", kv))) {
+                Ok(Ok(primitives::ScriptRef::NativeScript(_))) => "native".to_string(),
+                Ok(Ok(primitives::ScriptRef::PlutusV1Script(s))) => if s.0.to_vec() == script { "v1".into() } else { "v1 with other bytes".into() },
+                Ok(Ok(primitives::ScriptRef::PlutusV2Script(s))) => if s.0.to_vec() == script { "v2".into() } else { "v2 with other bytes".into() },
+                Ok(Ok(primitives::ScriptRef::PlutusV3Script(s))) => if s.0.to_vec() == script { "v3".into() } else { "v3 with other bytes".into() },
+                Ok(Err(e)) => format!("Err({e})"),
+                Err(p) => format!("panic:{p}"),
+            };
+            if got != want { witness("c02_cardano/compile_adhoc_script#postcondition", "compile_adhoc_script", format!("version {ver:?}"), got, &format!("{want} (the kind the version names, with the script bytes kept)")); }
+        }
         println!("VERIF-CASES fn=compile_adhoc_script n={n}");
+    }
+
+    // C02: an optional output is dropped only when it carries nothing at all
+    #[test]
+    fn output_has_assets_contract() {
+        let mut n = 0;
+        let mk = |coin: u64, tokens: bool| -> Result<primitives::TransactionOutput<'static>, Error> {
+            let value = if tokens {
+                let mut inner = std::collections::BTreeMap::new();
+                inner.insert(primitives::Bytes::from(b"T".to_vec()), primitives::PositiveCoin::try_from(3u64).unwrap());
+                let mut ma = std::collections::BTreeMap::new();
+                ma.insert(primitives::Hash::<28>::from([1u8; 28].as_slice()), inner);
+                primitives::Value::Multiasset(coin, ma)
+            } else { primitives::Value::Coin(coin) };
+            Ok(primitives::TransactionOutput::PostAlonzo(primitives::PostAlonzoTransactionOutput { address: vec![0x61; 29].into(), value, datum_option: None, script_ref: None }.into()))
+        };
+        for (coin, tokens, want) in [(0u64, false, false), (1, false, true), (5, false, true), (0, true, true), (1, true, true)] {
+            n += 1;
+            let got = output_has_assets(&mk(coin, tokens));
+            if got != want { witness("c02_cardano/output_has_assets#postcondition", "output_has_assets", format!("coin={coin} native assets={tokens}"), format!("{got}"), &format!("{want} (kept unless it carries nothing at all)")); }
+        }
+        n += 1;
+        if !output_has_assets(&Err(Error::MissingExpression("x".into()))) { witness("c02_cardano/output_has_assets#postcondition", "output_has_assets", "an output that failed to compile".into(), "false".into(), "true (errors are kept so that they surface)"); }
+        println!("VERIF-CASES fn=output_has_assets n={n}");
     }
 
     #[test]
